@@ -132,31 +132,31 @@ def run(ctx, rep):
     rep.floor("R1", "state-changing statements after validation in the request methods", n_r1, 12)
 
     # ------------------------------------------------------------------ R2
+    # a refusal may only mark a NEW order: every transition that a call of BaseOrder.violation can
+    # really apply (typestate analysis, guards inside the setter honoured) starts from NONE/VIOLATION
+    from rules.c03 import build as build_typestate
+    ts = build_typestate(ctx)
     viol = prog.own_method("BaseOrder", "violation")
     sites = res.call_sites_of(viol)
     rep.floor("R2", "call sites of BaseOrder.violation", len(sites), 1)
     nonplace = [prog.own_method("Transaction", m) for m in ("cancel_order", "update_order", "replace_order")]
     for cs in sites:
         f = cs.func
-        cfg = ctx.cfg(f)
-        nodes = [n for n in cfg.live_nodes() if cs.node in walk_calls(n.exprs)]
-        guarded = False
-        for n in nodes:
-            for g, pol in cfg.guards(n.id):
-                t = utext(g.exprs[0])
-                if _restricts_to_new_order(t, pol):
-                    guarded = True
-        for m in nonplace:
+        site = ts.sites.get(id(cs.node))
+        if site is None:
+            raise AnalysisError("violation() call not reached by the typestate analysis: %s" % f.qual)
+        bad = [t for t in site.trans if t[0] not in ("NONE", "VIOLATION")]
+        for m in nonplace + [prog.own_method("Transaction", "place_order")]:
             reach = res.reachable_funcs([m])
-            reachable = any(x is f for x in reach)
-            if not reachable:
+            if not any(x is f for x in reach):
                 rep.ok("R2", "%s -> %s" % (m.qual, key(f, cs.node)), f, cs.node,
                        "violation marking not reachable from this request")
                 continue
-            rep.check(guarded, "R2", "%s -> %s" % (m.qual, key(f, cs.node)), f, cs.node,
-                      "a refused %s marks the (live) order as VIOLATION: %s is reachable from %s through "
-                      "_validate_controls and is not restricted to new orders" % (
-                          m.name.split("_")[0], utext(cs.node), m.qual))
+            rep.check(not bad, "R2", "%s -> %s" % (m.qual, key(f, cs.node)), f, cs.node,
+                      "a refused %s marks a placed order as VIOLATION: %s is reachable from %s through "
+                      "_validate_controls and can apply %s" % (
+                          m.name.split("_")[0], utext(cs.node), m.qual,
+                          ", ".join("%s->%s" % t for t in sorted(bad))))
 
     # ------------------------------------------------------------------ R3
     r3_funcs = [("BetfairOrder", "cancel"), ("BetfairOrder", "update"), ("BetfairOrder", "replace"),
